@@ -216,7 +216,8 @@ class DequeCount:
                 if pidx is not None and pidx - 1 < len(inner[2]):
                     return lin_of(inner[2][pidx - 1]), True, d[1]
                 # produced by a crate function whose result size this analysis could not summarise
-                self.__dict__.setdefault('_unsummarised', {})[(body.path, D)] = canon(inner[1]).split('::')[-1]
+                self.__dict__.setdefault('_unsummarised', {})[(body.path, D)] = canon(inner[1]).split('::')[-1] + \
+                    ('()[iterator-driven]' if inner[1] in self.__dict__.get('_unknown_trip', set()) else '')
             return ({}, 0), False, d[1]
         return ({}, 0), False, 0
 
@@ -316,7 +317,8 @@ class DequeCount:
         if who:
             for bb_, (ok_, why_) in list(res.items()):
                 if not ok_:
-                    res[bb_] = (ok_, (why_ or 'the queue is not known to be non-empty here') + f' (the queue is produced by {who}(), whose result size could not be summarised)')
+                    res[bb_] = (ok_, (why_ or 'the queue is not known to be non-empty here') + (f' (the queue is produced by {who}(), whose result size could not be summarised)' if not who.endswith('[iterator-driven]') else
+                                                                                                    f' (the queue is produced by {who[:-19]}, which pushes once per item of an iterator whose length the element counter does not read)'))
         return res, final
 
     def track_level(self, body, ex, loops, D, ops, depth, size, exact, res):
@@ -472,6 +474,9 @@ class DequeCount:
                     size = l_add(size, l_scale(n, len(pushes)))
                 elif pushes or any(o['kind'] == 'maypush' for o in lops):
                     exact = False
+                    if pushes and (tc is None or tc[0] != 'range') and all(every_iteration(o) for o in pushes):
+                        # one push per iteration of a loop driven by an iterator whose length this counter does not read (chunks, zip, ..)
+                        self.__dict__.setdefault('_unknown_trip', set()).add(body.path)
         return (size, exact)
 
     def only_exit_is_condition(self, body, loops, head):
